@@ -5,6 +5,7 @@ const CHAR_OFFSET: u32 = 31;
 /// Rolling hash algorithm which can be used for chunking.
 ///
 /// Based on the rsync/bup rolling hash implementation.
+#[cfg_attr(oll3_bita_verif, derive(Hash))]
 pub struct RollSum {
     s1: u32,
     s2: u32,
